@@ -292,6 +292,16 @@ impl Group for C07Wire {
                     let r = wd.send(&m);
                     answered |= r == "ok" || r == "err";
                     let closed = wd.node.with_channel(&wd.channel_id, |c| Ok(c.enforcement_state.channel_closed)).unwrap_or(false);
+                    // expected through the wire exactly what the direct call gives: signed iff both current
+                    // commitments are still commitment 0 (no counterparty commitment 1 signed in this case)
+                    let expect_ok = !ops.iter().any(|o| o == "w_cp_ok");
+                    if (r == "ok") != expect_ok || closed != expect_ok {
+                        co.violations.push(Violation {
+                            kind: "wire-unexpected-answer".into(),
+                            desc: format!("SignMutualCloseTx2 over the wire answered {} closed={} (expected {})", r, closed as u8, if expect_ok { "ok closed=1" } else { "err closed=0" }),
+                            at: i,
+                        });
+                    }
                     format!("{} closed={}", r, closed as u8)
                 }
                 _ => "bad-op".to_string(),
